@@ -46,6 +46,47 @@ def check_map(rep, cfg):
                "the map must equal the specification's optimised Elligator 2 routine as a projective point for every r0 (%s); remainder: %s%s" % (
                    nm, N.show(r, 4), ("; unmodelled: " + "; ".join(out.unmodelled[:2])) if out.unmodelled else ""),
                where=cfg.where(p), sample={"obligation": "%s:%s" % (key, nm), "remainder_terms": len(r)})
+    # SYM: "invariant under r0 -> -r0", decided on the code's own term (independently of the specification): substituting -r0 for r0 must give
+    # the same projective point.  Holds exactly when the routine reads r0 only through r0^2 (all square-root and sign atoms are keyed by the
+    # canonical polynomials of their arguments, so (-r0)^2 = r0^2 makes them the same atoms).
+    neg = {r0: mk("neg", r0)}
+    from . import poly as P_
+    sqs = sorted({t for c_ in (X, Y, Z) for t in Tm.subterms(c_) if t.op == "isqrt_sq"}, key=lambda t: Tm.show(t, maxdepth=3))
+    symbad = []
+    import itertools
+    for vals in itertools.product((True, False), repeat=len(sqs)):
+        # case split on the square / non-square verdict(s) first (the verdict itself depends on r0^2 only), then substitute
+        Xc, Yc, Zc = X, Y, Z
+        for sq_, tv in zip(sqs, vals):
+            Xc, Yc, Zc = (Tm.assume(c_, sq_, tv) for c_ in (Xc, Yc, Zc))
+        Xn, Yn, Zn = (Tm.subst(c_, neg) for c_ in (Xc, Yc, Zc))
+        NS = P_.Norm(K.Q, sign_odd=True)      # sign(-u) = not sign(u): decides the symmetry away from the zeros of the sign-tested quantities
+        for nm, ob in (("X:Z", sub(mul(Xn, Zc), mul(Xc, Zn))), ("Y:Z", sub(mul(Yn, Zc), mul(Yc, Zn)))):
+            r = NS.poly(ob)
+            if r:
+                symbad.append("%s in case %s: remainder %s" % (nm, ["square" if v_ else "non-square" for v_ in vals], NS.show(r, 3)))
+    # VALID: "its output is always a valid element" - decided on the code's own coordinates, independently of the specification: in each case of
+    # the square-root verdict the output satisfies the curve equation a X^2 + Y^2 = Z^2 + d T^2 and X Y = Z T as polynomial identities in r0
+    # modulo the CONTRACT of the square-root routine (v^2 den = num, resp. zeta num) and S^2 = 1 for the +-1 selections.
+    validbad = []
+    for vals in itertools.product((True, False), repeat=len(sqs)):
+        Xc, Yc, Zc, Tc = X, Y, Z, T
+        for sq_, tv in zip(sqs, vals):
+            Xc, Yc, Zc, Tc = (Tm.assume(c_, sq_, tv) for c_ in (Xc, Yc, Zc, Tc))
+        NV = P_.Norm(K.Q)
+        a_, d_ = mk("felem", "fq", K.A_COEFF % K.Q), mk("felem", "fq", K.D_COEFF)
+        eqs = {"a*X^2 + Y^2 = Z^2 + d*T^2": sub(mk("add", mul(a_, mul(Xc, Xc)), mul(Yc, Yc)), mk("add", mul(Zc, Zc), mul(d_, mul(Tc, Tc)))),
+               "X*Y = Z*T": sub(mul(Xc, Yc), mul(Zc, Tc))}
+        for nm, ob in eqs.items():
+            res, probs = P_.reduce_modulo_isqrt(NV, NV.poly(ob), vals[0] if vals else True, zeta)
+            if res or probs:
+                validbad.append("%s in the %s case: %s %s" % (nm, "square" if (vals and vals[0]) else "non-square", NV.show(res, 3), probs[:1]))
+    rep.ob("VALID/%s/elligator_map" % cfg.name, not validbad and len(sqs) == 1 and not out.unmodelled,
+           "the output of elligator_map must lie on the curve (and have T = XY/Z) for every r0, given the square-root contract; %s" % ("; ".join(validbad[:2]) or "ok (both cases)"),
+           where=cfg.where(p), sample={"obligation": "VALID/%s/elligator_map" % cfg.name, "identities": 4})
+    rep.ob("SYM/%s/elligator_map" % cfg.name, not symbad and len(sqs) >= 1 and not out.unmodelled,
+           "elligator_map(-r0) must be the same projective point as elligator_map(r0) in the square and in the non-square case; %s" % ("; ".join(symbad[:2]) or "ok (%d case(s))" % (2 ** len(sqs))),
+           where=cfg.where(p), sample={"obligation": "SYM/%s/elligator_map" % cfg.name, "cases": 2 ** len(sqs)})
     # not degenerate: Z must equal the spec's Z up to the same factor as X (guards against returning (0:0:0:0))
     rep.ob(key + ":nonzero", bool(N.poly(Z)) and bool(N.poly(X)), "coordinates must not vanish identically", where=cfg.where(p), nontrivial=False)
     # the designated square-root routine
@@ -81,9 +122,9 @@ def run(rep, facts, tier):
         "sign fix as canonical ITE atoms) and compared projectively with the specification's optimised routine - equality of functions, so the "
         "square / non-square branches and both signs are covered at once. FWD: the public forms forward to it. Only conformance to the published "
         "optimised routine is decided; its equivalence to unoptimised Elligator 2 is not visible in the code's shape.")
-    rep.rules += ["TERM", "FWD", "CONST", "SIB"]
+    rep.rules += ["TERM", "FWD", "CONST", "SIB", "SYM (r0 -> -r0 invariance of the code's own term)", "VALID (curve equation and T = XY/Z modulo the square-root contract)"]
     rep.trusted += ["spec/decaf_spec.py transcription of the optimised map", "summary table"]
-    rep.assumptions += ["optimised map == unoptimised Elligator 2, r0 -> -r0 symmetry and output validity are algebraic facts about square roots in Fq (not decided here)",
+    rep.assumptions += ["optimised map == unoptimised Elligator 2 is an algebraic fact about square roots in Fq (not decided here); the r0 -> -r0 symmetry (SYM) and output validity (VALID: curve equation and T = XY/Z) ARE decided on the code's own term modulo the square-root contract, away from num*den = 0 / zeros of sign-tested quantities",
                         "ISQRT contract (C09), field ops (C10), group addition (C04)"]
     for name, f in facts.items():
         if name == "R":
